@@ -340,6 +340,56 @@ func ruleSibSwitch(c *Ctx) {
 			return true
 		})
 		if !found {
+			// the same dispatch written as an if / else-if chain
+			ast.Inspect(f.Body, func(x ast.Node) bool {
+				ifs, ok := x.(*ast.IfStmt)
+				if !ok || found {
+					return true
+				}
+				cases := map[string]bool{}
+				defaultFails := false
+				cur := ifs
+				for cur != nil {
+					be, ok := ast.Unparen(cur.Cond).(*ast.BinaryExpr)
+					if !ok || be.Op != token.EQL || !types.Identical(info.TypeOf(be.X), protoT.Type()) {
+						return true
+					}
+					if sv, ok := constString(info, be.Y); ok {
+						cases[sv] = true
+					}
+					switch el := cur.Else.(type) {
+					case *ast.IfStmt:
+						cur = el
+					case *ast.BlockStmt:
+						for _, st := range el.List {
+							switch s2 := st.(type) {
+							case *ast.ReturnStmt:
+								if len(s2.Results) > 0 && p.isNonNilExpr(f, s2.Results[len(s2.Results)-1]) {
+									defaultFails = true
+								}
+							case *ast.ExprStmt:
+								if call, ok := s2.X.(*ast.CallExpr); ok && p.CalleeName(f, call) == "builtin.panic" {
+									defaultFails = true
+								}
+							}
+						}
+						cur = nil
+					default:
+						cur = nil
+					}
+				}
+				if len(cases) >= 2 {
+					found = true
+					if cases["netrpc"] && cases["grpc"] && defaultFails {
+						c.R.Hold("R-SIB/switch", p.Pos(ifs), f.Name, "protocol switch", "if/else-if chain covers ProtocolNetRPC and ProtocolGRPC; the final else returns an error or panics", true)
+					} else {
+						c.R.Violate("R-SIB/switch", p.Pos(ifs), f.Name, "protocol switch", fmt.Sprintf("the dispatch over the protocol does not cover both protocols with a failing default (netrpc=%v grpc=%v defaultFails=%v)", cases["netrpc"], cases["grpc"], defaultFails), nil)
+					}
+				}
+				return true
+			})
+		}
+		if !found {
 			c.R.Undecided("R-SIB/switch", f.Name, "protocol switch", "no switch over a Protocol value found")
 		}
 	}
@@ -752,7 +802,29 @@ func (p *Prog) ruleQuitReply(c *Ctx) {
 				if _, r := after[e.From]; !r {
 					return false
 				}
-				return readsFlag(e.Cond)
+				if !readsFlag(e.Cond) {
+					return false
+				}
+				// the edge must be one on which the flag is known to be SET: a
+				// comparison that also holds for the unset (zero) value ends the
+				// server when any client hangs up
+				at, isAt := edgeAtom(info, e)
+				if !isAt {
+					return false
+				}
+				switch at.Kind {
+				case "cmp":
+					k, isK := constInt(info, at.Y)
+					if !isK {
+						return false
+					}
+					// holds(0)?  the edge asserts  X op k
+					holds0 := map[token.Token]bool{token.EQL: 0 == k, token.NEQ: 0 != k, token.LSS: 0 < k, token.LEQ: 0 <= k, token.GTR: 0 > k, token.GEQ: 0 >= k}[at.Op]
+					return !holds0
+				case "call", "bool":
+					return at.True
+				}
+				return false
 			}) {
 				ok = true
 			} else {
